@@ -116,6 +116,53 @@ CHECKS.update({
         note="Generated field names only; dataclass default_factory outside the explored space."),
 })
 
+CHECKS.update({
+    "C03": dict(
+        category="model_checking", design_ref="DESIGN.md section 4, C03",
+        technique="TLA+ specs Receive.tla (total demultiplexing function, listener tables, cell pre-processing) and WireStrict.tla "
+                  "(strict decoder) model-checked by TLC over every short byte string; real overlays of every class behind a real "
+                  "UDPEndpoint (plain / Statistics / Tunnel / Dispatcher chains) fed every length 0..64, all 256 ids, cells 22..40 "
+                  "bytes, every truncation of captures; deliveries and decodes validated by TLC (ReceiveTrace / WireStrictTrace)",
+        text="Totality (nothing raises into the transport), prefix isolation and all-listeners-served are decided by TLC on every "
+             "recorded delivery of the production receive path; for decoding, an event is accepted iff the code rejected the bytes "
+             "or the strict TLA+ decoder accepts them with the same parts and an end inside the buffer.",
+        note="Beyond 64 bytes inputs derive from captures and seeded samples; UTF-8/key validity are content checks the code may reject."),
+    "C12": dict(
+        category="model_checking", design_ref="DESIGN.md section 4, C12",
+        technique="TLA+ spec Network.tla (abstract membership + by-key index + three LRU caches) model-checked by TLC; every call "
+                  "sequence to depth 3 (thorough 4) and every (state, call) pair of the dumped graphs replayed on the real Network with "
+                  "real Peer objects; simulate behaviours replayed; random 200-call histories validated by TLC (NetworkTrace.tla)",
+        text="LookupsAgree / QueriesPure / RemovedIsGone / ReAddWorks / BlacklistedNeverVerified / SnapshotRoundTrip are checked by TLC "
+             "on the spec and the real Network is compared with TLC's successor state and return value after every call.",
+        note="3x3x2 exhausted to depth 3 (4), deeper only in smaller universes and by sampling; answers compared as sets."),
+    "C13": dict(
+        category="model_checking", design_ref="DESIGN.md section 4, C13",
+        technique="TLA+ spec NatWalk.tla (cone-NAT mapping/filtering + code-shaped introduction/puncture protocol) model-checked by TLC "
+                  "for all 92 configurations (NAT types x placements x message style) and all delivery orders; every transition "
+                  "replayed on real Community nodes behind simulated NAT boxes; random schedules validated by TLC in strict and "
+                  "observed mode (the simulator itself is validated against the spec)",
+        text="Reach (mutual verification after the follow-up walk), LanMeet and AsksPuncture hold in every reachable state of every "
+             "configuration, and the real nodes follow the spec step by step on a network that enforces mapping and filtering.",
+        note="Cone NATs only, public introducer, no mapping expiry/hairpin; premise (puncture before follow-up walk) encoded as guard."),
+    "C15": dict(
+        category="model_checking", design_ref="DESIGN.md section 4, C15",
+        technique="TLA+ specs DhtStore.tla / DhtLookup.tla model-checked by TLC; four state graphs (tokens, versions, expiry, limits) "
+                  "replayed on real DHT nodes with real signed datagrams; a 15-node network with an attacker recorded and validated by "
+                  "TLC (DhtStoreTrace / DhtLookupTrace); TLC enumerates lookup value lists and computes the admissible result",
+        text="Token authorisation, limits, signature verification, highest-version reporting, no-downgrade and expiry are invariants "
+             "of the spec; the real node's storage, secret window and responses are compared with the TLC state after every action.",
+        note="Rate limiter off in replays; malformed values are C03 territory."),
+    "C18": dict(
+        category="model_checking", design_ref="DESIGN.md section 4, C18",
+        technique="TLA+ specs FP2.tla (field laws + implementation layer, TLC computes every expected result), Attest.tla and "
+                  "RangeProof.tla; every edge of the dumped FP2 graphs is one real FP2Value call; real Boneh exact-match rounds and "
+                  "Peng-Bao range proofs with fresh keys recorded and validated by TLC (AttestTrace / RangeProofTrace)",
+        text="Field laws hold on the reference for p in {2,5,11,10007}; the implementation agrees on all 48^2 operand pairs (p=2), all "
+             "{0,1}^12 vectors (p=10007, bilinearity argument for all moduli) and samples; the exact-match protocol is model-checked "
+             "for all 8-bit values and all challenge orders and real runs are judged by TLC.",
+        note="Pairings, prime generation, soundness against cheating provers and zero-knowledge are outside TLA+ (stated limits)."),
+})
+
 PENDING_REASON = "check not built yet in this round (planned, see DESIGN.md section 9); no claim is made"
 
 
